@@ -149,6 +149,37 @@ def multi_component(rng):
     return AM(zs, edges, mass, {}, "multi")
 
 
+def bicyclo222(): return 8, [(0, 2), (2, 3), (3, 1), (0, 4), (4, 5), (5, 1), (0, 6), (6, 7), (7, 1)]
+def adamantane(): return 10, [(0, 4), (0, 5), (0, 6), (1, 4), (1, 7), (1, 8), (2, 5), (2, 7), (2, 9), (3, 6), (3, 8), (3, 9)]
+
+
+def cage_salt(rng):
+    """a symmetric polycycle together with so many further fragments (ions, waters) that the compound has fewer bonds
+    than atoms although it contains rings: salts, hydrates, solvates"""
+    name, (n, e) = rng.choice([("bicyclo222", bicyclo222()), ("adamantane", adamantane()), ("cube", cube()), ("prism3", prism(3)), ("K4", complete(4))])
+    rings = len(e) - n + 1
+    zs = [6] * n
+    if name in ("bicyclo222",) and rng.random() < .5:
+        zs[0] = zs[1] = 7
+    edges = list(e)
+    for _ in range(rings + rng.randint(0, 2)):
+        r = rng.random()
+        if r < .5:
+            zs.append(rng.choice([17, 35, 11, 8]))
+        elif r < .8:
+            o = len(zs); zs += [8, 1, 1]; edges += [(o, o + 1), (o, o + 2)]
+        else:
+            o = len(zs); zs += [6, 6]; edges += [(o, o + 1)]
+    if rng.random() < .4:
+        # hydrogens on the cage
+        for i in range(n):
+            zs.append(1); edges.append((i, len(zs) - 1))
+        for _ in range(n):
+            zs.append(rng.choice([17, 8]))
+    mass = {rng.randrange(len(zs)): 13} if rng.random() < .2 else {}
+    return AM(zs, edges, {i: m for i, m in mass.items() if zs[i] == 6}, {}, "cage-salt:" + name)
+
+
 def tree_like(rng, n):
     zs = [rng.choice([6, 6, 6, 7, 8]) for _ in range(n)]
     edges = [(rng.randrange(i), i) for i in range(1, n)]
@@ -263,3 +294,5 @@ def standard_stream(rng, tier):
         yield deep(rng, rng.randint(3, 30 if quick else 120))
     for _ in range(10 if quick else 60):
         yield tree_like(rng, rng.randint(2, 25 if quick else 80))
+    for _ in range(12 if quick else 100):
+        yield cage_salt(rng)
